@@ -283,7 +283,7 @@ impl Check for C16 {
         (v, info)
     }
     fn rule(&self) -> String {
-        "PROXY on/off x rate limiting on/off; 1-19 stalling clients, each stopping at a generated point (silent before the PROXY header, inside the header / first frame, mid-frame, after the handshake, mid-login, logged in and silent, flooding without reading); then one well-behaved client (valid v1 or v2 header if PROXY is on) performs a status exchange. non-trivial = at least one client stalls before completing its PROXY header, or at least five stall elsewhere; distinct = distinct case".into()
+        "PROXY on/off x rate limiting on/off; 1-19 stalling clients, each stopping at a generated point (silent before the PROXY header, inside the header / first frame, mid-frame, after the handshake, mid-login, logged in and silent, flooding without reading); then one well-behaved client (valid v1 or v2 header if PROXY is on) performs a status exchange; in 5 % of the cases instead 16-63 well-behaved clients arrive in the same instant while the limiter's clean-up of 100k-400k idle addresses is due, and every one of them must be served. non-trivial = at least one client stalls before completing its PROXY header, or at least five stall elsewhere; distinct = distinct case".into()
     }
     fn assumptions(&self) -> Vec<String> {
         vec![
